@@ -37,6 +37,7 @@ func checkC01(p *Prog, r *Report) {
 	r.rule("C01.S8", "Recv copies a segment's data into the caller's buffer and advances by its length before recycling it", 1)
 	r.rule("C01.S9", "WriteBuffers hands kcp.Send pieces of at most mss bytes and continues exactly where the piece ended; n counts each input slice once", 2)
 	r.rule("C01.S10", "bufptr is assigned only recvbuf[n:] / bufptr[n:] with n the result of the copy just made; a Read takes at most one message from the core", 3)
+	r.rule("C01.S19", "the parser stays aligned: in KCP.Input every way round the segment loop advances the input by the segment's length (data = data[length:]) — a `continue` that skips the advance makes the payload of that segment the next header, and data shaped like a header is accepted as a segment", 1)
 	r.rule("C01.S18", "message boundaries and content survive FEC recovery and a full queue: a recovered packet's payload is copied into its own pool buffer before it is kept (= C15.O4), and PeekSize reports a message exactly when all its fragments are queued — never a partial one (= C02.A15)", 2)
 	r.rule("C01.S17", "what Write reports is what was queued: in WriteBuffers every return that can follow a kcp.Send returns the running count of queued bytes (the local increased by len(b) per buffer), never a constant; and since WriteBuffers does not look at Send's result, KCP.Send refuses (negative return) only for reasons visible in its argument — the empty buffer and the fragment count — never for connection state", 3)
 	r.rule("C01.S16", "no empty message enters the send queue: KCP.Send refuses len(buffer) == 0 unconditionally before it queues anything — the session reader acts on PeekSize() > 0 only, so a zero-length message at the head of the peer's delivery queue is never consumed and everything written after it is stuck behind it", 1)
@@ -347,6 +348,25 @@ func checkC01(p *Prog, r *Report) {
 					}
 				}
 				okForm = okForm && countT != nil && neg == 1
+				if !okForm && inner.Op == "var" {
+					// the count-down form: for frg := count - 1; frg >= 0; frg-- { … seg.frg = uint8(frg) }
+					if lp, isFor := enclosingLoop(p, st.Node).(*ast.ForStmt); isFor && lp.Init != nil && lp.Cond != nil && lp.Post != nil {
+						if ia, isA := lp.Init.(*ast.AssignStmt); isA && len(ia.Lhs) == 1 && len(ia.Rhs) == 1 && identVar(p, ia.Lhs[0]) != nil && types.Object(identVar(p, ia.Lhs[0])) == inner.Obj {
+							il := Lin(p.Term(ia.Rhs[0]))
+							var cT *Term
+							for k, cf := range il.Coef {
+								if cf == 1 {
+									cT = il.Atoms[k]
+								}
+							}
+							dec, isDec := lp.Post.(*ast.IncDecStmt)
+							ct := p.Term(lp.Cond)
+							if il.C == -1 && nonZeroCoefs(il) == 1 && cT != nil && isDec && dec.Tok == token.DEC && p.Term(dec.X).Key() == inner.Key() && (ct.Key() == le(tConst(0), inner).Key() || ct.Key() == lt(tConst(-1), inner).Key()) && len(p.Assignments(send, inner.Obj.(*types.Var))) <= 2 {
+								okForm, countT = true, cT
+							}
+						}
+					}
+				}
 				okMsg := fs.Holds(eq(stream, tConst(0)))
 				okLim := countT != nil && fs.Holds(le(countT, tConst(255)))
 				r.check(okForm && okMsg && okLim, "C01.S7", st.Fn.Name, p.Pos(st.Node), construct, "count - i - 1 in message mode, count <= 255", fmt.Sprintf("fragment numbering is not count-1-i (%v) under stream == 0 (%v) with count <= 255 (%v): with 256 fragments the first carries frg = 255 and the reader's 8-bit frg+1 wraps to 0, so a partial message is delivered as complete", okForm, okMsg, okLim))
@@ -438,6 +458,7 @@ func checkC01(p *Prog, r *Report) {
 	checkWriteAccounting(p, r)
 	delegate(p, r, "C15", checkC15, "C15.O4", "C01.S18")
 	checkPeekSizeReadiness(p, r, "C01.S18")
+	checkParserAdvances(p, r)
 	checkSessionChunking(p, r)
 	checkReadCarryOver(p, r)
 
@@ -1420,5 +1441,52 @@ func checkWriteAccounting(p *Prog, r *Report) {
 	})
 	if m == 0 {
 		r.ok("C01.S17", send.Name, p.Pos(send.Node), "refusals of KCP.Send", "Send never refuses")
+	}
+}
+
+// checkParserAdvances: C01.S19.
+func checkParserAdvances(p *Prog, r *Report) {
+	input := p.FuncOf(p.Method("KCP", "Input"))
+	c := p.CFG(input)
+	dataP, _ := input.paramObj(p, 0).(*types.Var)
+	var adv *ast.AssignStmt
+	inspectBody(input, func(x ast.Node) bool {
+		as, ok := x.(*ast.AssignStmt)
+		if !ok || len(as.Lhs) != 1 || len(as.Rhs) != 1 || as.Tok != token.ASSIGN {
+			return true
+		}
+		if identVar(p, as.Lhs[0]) != dataP || dataP == nil {
+			return true
+		}
+		if rt := p.Term(as.Rhs[0]); rt.Op == "slice" && rt.Args[0].Op == "var" && rt.Args[0].Obj == types.Object(dataP) && rt.Args[1] != nil && !rt.Args[1].IsConst() && rt.Args[2] == nil {
+			adv = as
+		}
+		return true
+	})
+	if adv == nil {
+		r.bad("C01.S19", input.Name, p.Pos(input.Node), "advance by the segment length", "Input never advances its input by a segment's length", "")
+		return
+	}
+	loop, _ := enclosingLoop(p, adv).(*ast.ForStmt)
+	if loop == nil || len(loop.Body.List) == 0 {
+		r.bad("C01.S19", input.Name, p.Pos(adv), "advance by the segment length", "the advance is not inside the segment loop", "")
+		return
+	}
+	var bodyBlk *cfg.Block
+	for _, b := range c.live {
+		if b.Kind == cfg.KindForBody && b.Stmt == ast.Stmt(loop) {
+			bodyBlk = b
+		}
+	}
+	if bodyBlk == nil {
+		r.undecided("C01.S19", input.Name, p.Pos(adv), "advance by the segment length", "loop body not located in the flow graph")
+		return
+	}
+	res := c.FindPath(PathQuery{From: Point{bodyBlk, 0}, IsBarrier: func(nd ast.Node, _ Point) bool { return nd == ast.Node(adv) },
+		OnBlock: func(b *cfg.Block) (bool, bool) { return b == bodyBlk, false }})
+	if res.Found {
+		r.bad("C01.S19", input.Name, p.Pos(adv), "advance by the segment length", "a way round the segment loop skips data = data[length:]: the next iteration parses that segment's payload as a header — payload bytes shaped like a segment of this conversation are accepted under their embedded sequence number and delivered in place of the real data", c.DescribePath(res.Path))
+	} else {
+		r.ok("C01.S19", input.Name, p.Pos(adv), "advance by the segment length", "every way round the loop passes data = data[length:]")
 	}
 }
